@@ -320,6 +320,28 @@ func (g *Gen) tagFor(e *helperEntry) int {
 	}
 }
 
+// badValueFor: a value no setter of the helper may accept ("" when every value of the Go type is in the domain)
+func (g *Gen) badValueFor(e *helperEntry) string {
+	switch e.Kind {
+	case "string", "octets":
+		if e.Size >= 0 {
+			return hx(g.RandBytes(e.Size + 1))
+		}
+		return hx(g.RandBytes(254))
+	case "ipaddr":
+		return hx(g.RandBytes(5))
+	case "ipv6addr":
+		return hx(g.RandBytes(15))
+	case "ifid":
+		return hx(g.RandBytes(9))
+	case "date":
+		return "t-1"
+	case "ipv6prefix":
+		return "pnil"
+	}
+	return ""
+}
+
 func (g *Gen) valueFor(e *helperEntry) string {
 	switch e.Kind {
 	case "string", "octets", "concat":
@@ -520,6 +542,24 @@ func genC12(g *Gen, tier string, emit func(op string, args ...string)) {
 	for _, e := range registry {
 		for i := 0; i < per; i++ {
 			emit("helper", descOf(e), showAVPs(g.priorPacket(e, false)), hx(g.helperSecret(e)), hx(g.RandBytes(16)), g.helperOps(e))
+		}
+		// one directed case per helper: every setter entry point it has is given a value outside the attribute's
+		// domain (and a valid one afterwards) - the refusal branch of each generated setter runs at least once per tier
+		if bad := g.badValueFor(e); bad != "" {
+			tag := itoa(g.tagFor(e))
+			ops := []string{"set:" + tag + ":" + bad, "lookup"}
+			if e.Add != nil {
+				ops = append(ops, "add:"+tag+":"+bad)
+			}
+			if e.SetString != nil {
+				ops = append(ops, "setstr:"+tag+":"+bad)
+			}
+			if e.AddString != nil {
+				ops = append(ops, "addstr:"+tag+":"+bad)
+			}
+			// (the wire trip comes last: a packet that has travelled as a reply is only read, see helperOps)
+			ops = append(ops, "set:"+tag+":"+g.valueFor(e), "lookup", "wire")
+			emit("helper", descOf(e), showAVPs(g.priorPacket(e, false)), hx(g.helperSecret(e)), hx(g.RandBytes(16)), strings.Join(ops, ","))
 		}
 		if e.Strings != nil {
 			var dv []string
